@@ -58,7 +58,9 @@ func mustConcStr(v value, what string) string {
 
 func (p *pathCtx) fresh(tag string, w uint8) *Term {
 	p.seq++
-	return mkVar(fmt.Sprintf("%s!%d", tag, p.seq), w)
+	v := mkVar(fmt.Sprintf("%s!%d", tag, p.seq), w)
+	p.vars = append(p.vars, v)
+	return v
 }
 
 func needPath(fr *frame) *pathCtx {
@@ -183,6 +185,7 @@ func init() {
 					ts = append(ts, toTerm(strByte(s, k)))
 				}
 			}
+			p.noModel = true
 			t := mkUF(name+lens, 0, ts)
 			p.nondets = append(p.nondets, nondetRec{Tag: "uf:" + name, Kind: "bool", terms: []*Term{t}})
 			return mkSym(t, types.Bool)
@@ -194,6 +197,7 @@ func init() {
 			for _, s := range a[1].([]value) {
 				ts = append(ts, toTerm(s))
 			}
+			p.noModel = true
 			t := mkUF(name, 64, ts)
 			p.nondets = append(p.nondets, nondetRec{Tag: "uf:" + name, Kind: "u64", terms: []*Term{t}})
 			return mkSym(t, types.Uint64)
